@@ -72,6 +72,27 @@ def main(argv):
             lambda e: e["resp"].__setitem__("vid", 31337), {"C02"})
     corrupt("urgency of an accepted version", lambda e: e.get("resp", {}).get("kind") == "ok",
             lambda e: e["resp"].__setitem__("urg", "low" if e["resp"]["urg"] != "low" else "high"), {"C12"})
+    # ---- 3. the recorded storage calls as actions of SyncStorage: drop one call from real rounds -> must be rejected
+    cj = [{"id": "st1", "mode": "dfs", "backend": "sqlite", "instances": "shared", "cfg": {"days": 14, "versions": 100}, "seedname": "Seed2b",
+           "seed": engines.CONC_SEEDS["Seed2b"], "reqs": [{"op": "AddVersion", "argk": "latest", "lvl": "http"}, {"op": "GetChildVersion", "argk": "mid", "lvl": "http"}],
+           "max_rounds": 30}]
+    wd3 = os.path.join(wd, "st")
+    os.makedirs(wd3)
+    files3, n3, _ = engines.run_conc_jobs(binary, cj, wd3, nproc=1)
+    st_ok, _notes = engines.storage_conformance(files3, cj, wd3)
+    ok = st_ok["rounds_replayed"] > 0 and st_ok["not_conforming"] == 0
+    print(("PASS " if ok else "FAIL ") + f"{st_ok['rounds_replayed']} real rounds replay as behaviours of SyncStorage")
+    allok &= ok
+    lines3 = [json.loads(l) for l in open(files3[0])]
+    for e in lines3:
+        e["log"] = [c for c in e["log"] if c[1] != "get_client"]        # the request never read the client record ...
+    with open(files3[0], "w") as w:
+        for e in lines3:
+            w.write(json.dumps(e) + "\n")
+    st_bad, _notes = engines.storage_conformance(files3, cj, wd3)
+    ok = st_bad["not_conforming"] == st_bad["rounds_replayed"] > 0
+    print(("PASS " if ok else "FAIL ") + f"with the get_client calls removed from the logs, {st_bad['not_conforming']} of {st_bad['rounds_replayed']} rounds are rejected by the model")
+    allok &= ok
     shutil.rmtree(wd, ignore_errors=True)
     print("selftest " + ("OK" if allok else "FAILED"))
     return 0 if allok else 1
